@@ -121,6 +121,20 @@ fn backend<B: Backend>(opts: &Opts, rep: &mut Report) {
             s.pke_pk = pk;
             one::<B>(rep, kind, &key_raw, &s, "grid");
         }
+        // --- dense sweep of password lengths 0..=300 (hash-block boundaries at 64/128/129) for password wraps
+        if kind.is_pw() {
+            for plen in 0..=300usize {
+                idx += 1;
+                if !opts.mine(idx) {
+                    continue;
+                }
+                let mut rng = Rng::derive(opts.seed, &stream, idx);
+                let key_raw = gen_wrapped_key::<B>(kind, &mut rng);
+                let mut s = base.clone();
+                s.pass = rng.bytes(plen);
+                one::<B>(rep, kind, &key_raw, &s, "password-length");
+            }
+        }
         // --- default parameters for password wraps (expensive: few)
         if kind.is_pw() {
             for _ in 0..opts.size(3, 20) {
